@@ -212,6 +212,9 @@ func c29Run(c *fx.Ctx) {
 					}
 				}
 				c.Distinct("nontrivial", "r|"+e.name+"|"+string(doc))
+				if c.Index()%41 == 0 {
+					c.Sample(map[string]interface{}{"entry": e.name, "document": fmt.Sprintf("%x", clipB(doc)), "read_calls": n, "fault_kinds": []string{faultName(faultKinds()[0]), faultName(faultKinds()[1]), faultName(faultKinds()[2]), faultName(faultKinds()[3])}})
+				}
 			}
 		}
 	}
